@@ -577,7 +577,10 @@ func (in *Interp) builtin(name string, x *ast.CallExpr, st *State, fr *frame, k 
 			}); ok {
 				h.Make(in, x, vals, st, fr)
 			}
-			k(st, Val{K: KAlloc, Elems: vals, T: typeOf(fr, x)})
+			// allocations carry an identity so that hooks can remember what was put into a buffer
+			in.objN++
+			st.heap[in.objN] = map[string]Val{}
+			k(st, Val{K: KAlloc, Elems: vals, T: typeOf(fr, x), Obj: in.objN})
 		})
 	case "new":
 		t := typeOf(fr, x.Args[0])
